@@ -902,7 +902,9 @@ fn structural_campaign() -> u64 {
     let mut evaluations = 0;
     for version in [Version::V3, Version::V4] {
         // shrink within the regular range (free_chain_after), grow (extend_chain), both in whole sectors and not
-        for (from, to) in [(9000usize, 5000usize), (20000, 4096), (16384, 8192), (5000, 9000), (4096, 30000)] {
+        // … and across the point where the FAT itself has to grow (version 3: the 128th sector): append_fat_sector's
+        // own writes (the new FAT sector, its cell, the header's DIFAT slot and count) are fault positions too
+        for (from, to) in [(9000usize, 5000usize), (20000, 4096), (16384, 8192), (5000, 9000), (4096, 30000), (5000, 70000), (60000, 66000)] {
             let (n, bad0) = resize_under_fault(version, from, to, None);
             for b in bad0 {
                 println!("ORACLE resize {}->{} (V{}) without any fault: {}", from, to, if version == Version::V3 { 3 } else { 4 }, b);
